@@ -701,7 +701,13 @@ def run_ops(ops):
             o = 'skip=numerics'; dead = True; model_in[-1] = 'skip'
         outs.append(o)
         t0 = line.split(' ')
-        if exc is None and (t0[0] in DEFAULTS or t0[-1] == 'eb') and t0[0] in ('mix', 'sum', 'sep', 'iadd', 'add', 'isub'):
+        if exc is None and not dead and (t0[0] in DEFAULTS or t0[-1] == 'eb') and before is not None \
+                and not all(b['nonneg'] for b in before):
+            # an energy balance while some stream holds a negative flow (outside the quantifier): what the enthalpy solve
+            # does to phase labels is meaningless; the totals of this line are still compared, then the case ends
+            U.tags.add('eb:negative-flows-totals-only')
+            outs[-1] = o.split(' ph=')[0]; model_in[-1] = line + ' tot!'; dead = True
+        elif exc is None and (t0[0] in DEFAULTS or t0[-1] == 'eb') and t0[0] in ('mix', 'sum', 'sep', 'iadd', 'add', 'isub'):
             # `self.H = H` may relabel a single-phase result g <-> l (temperature solve failed in the current phase):
             # thermodynamic numerics, handed to the model as a parameter of this line
             j = len(U.streams) - 1 if t0[0] in ('sum', 'add') else int(t0[1])
